@@ -1,4 +1,5 @@
 import SeaQ.Lemmas.DdlCtx
+import SeaQ.Lemmas.DdlBalance
 import SeaQ.Model.Affinity
 import SeaQ.Props.C13
 import SeaQ.Props.C14
@@ -13,6 +14,7 @@ differential run of generated schema statements (`harness/src/ddl.rs`).
   text only when non-empty and free of quote characters and marks), the engine's lexer reads the rendered text exactly as the sequence
   of items the statement was written from: every declared name as one quoted identifier (C04),
   every comment / enum variant / default string as one string literal (C03), nothing glued.
+* `ddl_balanced`: parentheses are balanced in every schema statement.
 * `create_items`: **completeness and order** of `CREATE TABLE` — the parenthesised body is the
   `, `-separated list of the column definitions, then the table-level keys, then the foreign keys,
   then the checks, each rendered by its own function, none dropped, none reordered.
@@ -31,6 +33,15 @@ theorem ddl_read (d : Backend) (s : SeaQ.Ddl.Stmt) (hc : (rStmt d s).all (conten
     segment d (textI d (rStmt d s)) = some (items d true 0 (rStmt d s)) := by
   have := segment_txt d true (rStmt d s) (ddl_safe d true s hc)
   rwa [txt_inline] at this
+
+/-- **every schema statement is written with balanced parentheses** (renderer text and raw text read from depth 0
+never close an unopened parenthesis and end at depth 0), given that each caller-supplied raw text (custom type
+names, options, `extra`) is balanced on its own and no template expression is used in a DEFAULT / CHECK -/
+theorem ddl_balanced (d : Backend) (s : SeaQ.Ddl.Stmt) (h : SeaQ.Balance.bad (rStmt d s) = false) :
+    SeaQ.Balance.scan 0 (rStmt d s) = some 0 := by
+  cases SeaQ.Balance.e_rStmt d s with
+  | inl hb => rw [hb] at h; cases h
+  | inr hs => simpa using hs 0
 
 /-! ## CREATE TABLE: the body is the separated list of the declared elements -/
 
@@ -252,5 +263,6 @@ def demoCreate : SeaQ.Ddl.Stmt :=
 example : (rStmt .sqlite demoCreate).all (contentOK .sqlite true) = true := by decide
 example : (rStmt .mysql demoCreate).all (contentOK .mysql true) = true := by decide
 example : (rStmt .postgres demoCreate).all (contentOK .postgres true) = true := by decide
+example : SeaQ.Balance.scan 0 (rStmt .mysql demoCreate) = some 0 := ddl_balanced _ _ (by decide)
 
 end SeaQ.Props.Ddl
